@@ -577,6 +577,16 @@ func (in *c09Inst) header(c *c09Case) (hdrs []string, valid [][2]string) {
 		d := []time.Duration{2 * time.Second, time.Hour, 365 * 24 * time.Hour}[c.HdrArg%3]
 		return one("Bearer " + in.mint(jwt.SigningMethodHS256, in.key,
 			jwt.MapClaims{"exp": now.Add(-d).Unix(), "iss": "simpleiot", "jti": uid})), valid
+	case "bearer-expiring":
+		// a genuine token that is used once while it is valid and presented again after it has expired:
+		// what was accepted a moment ago must be refused now
+		exp := now.Add(2 * time.Second)
+		t := in.mint(jwt.SigningMethodHS256, in.key, jwt.MapClaims{"exp": exp.Unix(), "iss": "simpleiot", "jti": uid})
+		for _, m := range []string{"GET", "POST"}[:1+c.HdrArg%2] {
+			_, _, _, _ = in.request(m, "/v1/nodes", []string{"Bearer " + t}, "", false)
+		}
+		time.Sleep(time.Until(time.Unix(exp.Unix()+1, 200e6)))
+		return one("Bearer " + t), valid
 	case "bearer-otherkey":
 		k := make([]byte, len(in.key))
 		for i := range k {
@@ -1395,6 +1405,14 @@ func c09Run(cfg *config) error {
 		fcases := c09BusCases(ftok, r)
 		fcases = append(fcases, c09GenHTTP(r, 120*cfg.scale, false)...)
 		fcases = append(fcases, c09BusCases(ftok, r)[:3]...)
+		for k, rt := range []struct {
+			m string
+			p int
+		}{{"GET", 0}, {"POST", 4}, {"GET", 2}} {
+			fcases = append(fcases, &c09Case{Kind: "http", Method: rt.m,
+				Path:   strings.ReplaceAll(c09Paths[rt.p].tmpl, "%s", fmt.Sprintf("c09n%de", k)),
+				Intent: c09Paths[rt.p].intent, HdrKind: "bearer-expiring", HdrArg: k, BodyKind: "good", JWTUser: "@admin"})
+		}
 		batch(fcases, ftok, true)
 		// no token configured: the property does not apply, the model still has to agree
 		var ncases []*c09Case
